@@ -269,43 +269,53 @@ def correspondence(ctx):
             if st != "ok":
                 continue
             r = call(lambda: vt.to_cumulative())
-            d = dump(r)
             ctx.count(f"refuse/{tag}")
             ctx.case(digest=None)
-            vw = w_cells(vt.cells)
-            if d.get("err") != "TriangleError":
-                ctx.fail(f"incremental triangle with a broken chain ({tag}) is not refused with TriangleError",
-                         {"cells": vw}, d)
-            if vi in to_model:
-                send("toCum", vw, d, f"to_cumulative on a broken chain ({tag})", expect_err="TriangleError")
+            refused = r == ("err", "TriangleError")
+            if not refused or vi in to_model:       # wire dumps only where they are needed
+                d = dump(r)
+                vw = w_cells(vt.cells)
+                if not refused:
+                    ctx.fail(f"incremental triangle with a broken chain ({tag}) is not refused with TriangleError",
+                             {"cells": vw}, d)
+                if vi in to_model:
+                    send("toCum", vw, d, f"to_cumulative on a broken chain ({tag})", expect_err="TriangleError")
 
         # 6. refusals: rows with inconsistent fields
         for fi, (tag, vcells) in enumerate(field_variants(rng, list(t.cells), False)):
             st, vt = call(Triangle, vcells)
             if st != "ok":
                 continue
-            d = dump(call(lambda: vt.to_incremental()))
+            r = call(lambda: vt.to_incremental())
             ctx.count(f"refuse/cum-{tag}")
             ctx.case(digest=None)
-            vw = w_cells(vt.cells)
-            if d.get("err") != "TriangleError":
-                ctx.fail(f"cumulative row with inconsistent fields ({tag}) is not refused with TriangleError",
-                         {"cells": vw}, d)
-            if not ctx.thorough or fi == 0:
-                send("toInc", vw, d, f"to_incremental on inconsistent fields ({tag})", expect_err="TriangleError")
+            refused = r == ("err", "TriangleError")
+            to_m = not ctx.thorough or fi == 0
+            if not refused or to_m:
+                d = dump(r)
+                vw = w_cells(vt.cells)
+                if not refused:
+                    ctx.fail(f"cumulative row with inconsistent fields ({tag}) is not refused with TriangleError",
+                             {"cells": vw}, d)
+                if to_m:
+                    send("toInc", vw, d, f"to_incremental on inconsistent fields ({tag})", expect_err="TriangleError")
         for fi, (tag, vcells) in enumerate(field_variants(rng, list(inc.cells), True)):
             st, vt = call(Triangle, vcells)
             if st != "ok":
                 continue
-            d = dump(call(lambda: vt.to_cumulative()))
+            r = call(lambda: vt.to_cumulative())
             ctx.count(f"refuse/inc-{tag}")
             ctx.case(digest=None)
-            vw = w_cells(vt.cells)
-            if d.get("err") != "TriangleError":
-                ctx.fail(f"incremental row with inconsistent fields ({tag}) is not refused with TriangleError",
-                         {"cells": vw}, d)
-            if not ctx.thorough or fi == 0:
-                send("toCum", vw, d, f"to_cumulative on inconsistent fields ({tag})", expect_err="TriangleError")
+            refused = r == ("err", "TriangleError")
+            to_m = not ctx.thorough or fi == 0
+            if not refused or to_m:
+                d = dump(r)
+                vw = w_cells(vt.cells)
+                if not refused:
+                    ctx.fail(f"incremental row with inconsistent fields ({tag}) is not refused with TriangleError",
+                             {"cells": vw}, d)
+                if to_m:
+                    send("toCum", vw, d, f"to_cumulative on inconsistent fields ({tag})", expect_err="TriangleError")
 
     # 7. a stream of directly generated complete incremental triangles (not obtained by conversion)
     for di in range(n_tri // 6):
@@ -353,7 +363,10 @@ if __name__ == "__main__":
              "incremental triangles. distinct = distinct canonical input dump; non-trivial = some row has >= 2 cells",
         assumptions=["values are exactly representable (ints, dyadic rationals < 2^12 with 3 fractional bits): IEEE "
                      "subtraction/addition is exact, so exact rational arithmetic in the model is the same function",
-                     "None-free rows, arrays of one shape per field, no 0-d arrays, no int64 overflow",
+                     "None-free rows, every field keeps one kind (int / float / int64 array / float64 array) and one "
+                     "shape along the triangle, no 0-d arrays, no int64 overflow",
+                     "theorems: triangles are in canonical form with distinct (metadata, period, evaluation date) "
+                     "(WFcum.sorted), period_start is a valid calendar date",
                      "order of keys inside a result values dict is not compared (Python builds it from a set)"],
         trusted=["numpy result-kind rules as modelled in Val.arith (int64 op int64 = int64, any float = float64)",
                  "CPython sorted()/dict/zip semantics as modelled (Model/Basis.lean)"],
